@@ -31,10 +31,13 @@ COMPONENTS = {"real": ["front-end specification generation", "smt_encoding (Full
 ASSUMPTIONS = ["models are sampled, not enumerated (up to 11 peers per instance)", "R2 is the definition of 'realizes'",
                "-push-basic is drawn rarely (known finding territory) and -terminal/-ac are excluded (marked UNSUPPORTED by the tool)"]
 
-PEERS = [{"kind": "optimal"}, {"kind": "refute_order"}, {"kind": "any_model", "seed": 1}, {"kind": "any_model", "seed": 2}, {"kind": "any_model", "seed": 5},
+PEERS = [{"kind": "optimal"}, {"kind": "gives_up_once"}, {"kind": "refute_order"}, {"kind": "any_model", "seed": 1}, {"kind": "any_model", "seed": 2}, {"kind": "any_model", "seed": 5},
          {"kind": "skewed", "seed": 11, "mode": "random"}, {"kind": "skewed", "seed": 12, "mode": "maximise"},
          {"kind": "skewed", "seed": 13, "mode": "random"}, {"kind": "nth_model", "n": 1}, {"kind": "nth_model", "n": 2},
          {"kind": "nth_model", "n": 4}, {"kind": "non_optimal", "seed": 3}]
+
+
+FAMILIES = [(t, e, m) for t in O.TERM_ENCODINGS for e in (False, True) for m in ("l_vars", "direct")]
 
 
 def plan(tier, seed, batch):
@@ -95,11 +98,32 @@ def build(spec):
     flags += ["-solver", solver] + O.encoder_flags(ro, allow_push_basic=False, p=0.3)
     if i % 25 == 7:
         flags.append("-push-basic")        # rarely: the whole option is a recorded finding (see known_findings.json)
+    if i < len(FAMILIES):
+        # deterministic sweep: every (term encoding, -empty, memory encoding) family is met in every run of the check, on blocks
+        # with a store, a pushed value and an instruction of slack (models longer than the optimum exist)
+        term, empty, memenc = FAMILIES[i]
+        flags = [f for f in flags if f not in ("-empty",)]
+        for opt in ("-term-encoding", "-memory-encoding"):
+            while opt in flags:
+                k = flags.index(opt)
+                del flags[k:k + 2]
+        flags += ["-term-encoding", term, "-memory-encoding", memenc] + (["-empty"] if empty else [])
+        flags = [f for f in flags if f not in ("-storage", "-partition", "-push-basic")]
+        blocks = []
+        for _ in range(4):
+            st = rw.choice(["MSTORE", "SSTORE", "MSTORE8"])
+            b = [("PUSH", "%x" % rw.choice([8, 1, 0xff])), ("PUSH", "%x" % rw.choice([0, 0x20, 0x40])), (st, None)]
+            b += rw.choice([[("PUSH", "5"), ("PUSH", "5"), ("POP", None)], [("PUSH", "7"), ("DUP1", None), ("POP", None)],
+                            [("DUP1", None), ("PUSH", "3"), ("SWAP1", None), ("POP", None)], [("PUSH", "5"), ("PUSH", "6"), ("SWAP1", None), ("POP", None)]])
+            blocks.append(b)
+        quick = spec["tier"] == "quick"
+        return {"argv": flags, "blocks": [AJ.items_to_text(b, 2) for b in blocks], "peers": PEERS[:9] if quick else PEERS,
+                "max_len": 8 if quick else 12, "greedy": False}
     conflict = i % 3 == 1          # every third task: ordering-constraint bait, half of it with the position bounds disabled
     if conflict and i % 2 == 1 and "-order-bounds" not in flags:
         flags.append("-order-bounds")
     quick = spec["tier"] == "quick"
-    peers = PEERS[:8] if quick else PEERS
+    peers = PEERS[:9] if quick else PEERS
     return {"argv": flags, "blocks": [AJ.items_to_text(b, 2) for b in gen_blocks(rw, 4, conflict)], "peers": peers,
             "max_len": 8 if quick else 12, "greedy": False}
 
@@ -123,6 +147,14 @@ def evaluate(op, recs, summ):
         for r in rec["results"]:
             kind = r["peer"]["kind"]
             summ["probes"]["peer_" + kind] = summ["probes"].get("peer_" + kind, 0) + 1
+            qs = r.get("queries") or []
+            if len(qs) > 1:
+                summ["probes"]["problems_asked_twice"] = summ["probes"].get("problems_asked_twice", 0) + 1
+            if qs and any(q[1] != qs[0][1] for q in qs):
+                viols.append({"class": ["problem-text", "queries-differ", kind],
+                              "detail": "%s: the solver was asked %d times about the same problem with %s assertions (soft %s) | flags %s" % (
+                                  rec["key"], len(qs), [q[1] for q in qs], [q[2] for q in qs], " ".join(op["argv"])), "replay": rp})
+                continue
             if r.get("z3_error"):
                 viols.append({"class": ["smtlib", "rejected-by-z3"], "detail": "%s: z3 reports an error for the emitted text | flags %s" % (
                     rec["key"], " ".join(op["argv"])), "replay": rp})
